@@ -20,6 +20,11 @@ CHECKS = {
    technique="TLC model checking of range.c transcribed into TLA+ against the Range contract + TLC trace validation of real zck_get_missing_range/zck_get_range_char results",
    text="TLC exhausts RangeImpl (range_add with its three cases, range_merge_combined, the limit test, the range index, and the renderer with a tiny buffer, x1.5 growth and snprintf truncation) on every table of up to 5 chunks with sizes {0,1,2}, every validity vector, limits {-1,0,1,2,3} and every item-length vector, against the Range contract (ascending non-adjacent ranges, union exactly a prefix of the missing chunks, count bound, range index, string = list). The contract then judges the real code: real files get validity vectors poked in (all vectors of small files; a 6000-chunk table with patterns chosen so that items end exactly at the 32768/49152-byte buffer capacities), and every (ranges, count, range index, rendered string parsed back) is validated by TLC through Trace_Range. One open finding (zero-length missing chunk -> inverted range) is a named deviation whose prediction is the transcription of the pinned code.",
    note="Trusted: TLC, Range.tla, the reference parser for chunk tables, a strict Python parser of the rendered string, the witness (containing range per chunk) being checked not trusted. Not decided: tables beyond ~6000 chunks; limits other than the listed ones."),
+ "C06": dict(
+   category="model_checking", design_ref="DESIGN.md section 6, C06",
+   technique="TLC check of the checksum-coverage arithmetic + exhaustive byte substitution on the real open paths, judged by TLC trace validation with the reference codec's sealed fact",
+   text="TLC checks on HeaderCover that the bytes fed to the header checksum plus the stored digest field are exactly all header bytes for every integer width and digest size. Then for 12 sample files (all overall/chunk hash types, dictionary, uncompressed-source flag, optional elements, a detached header, headers whose stored checksum begins with 0x00) EVERY header position x all 255 other byte values is opened by the real library, both through zck_init_read and through the pinned path (type and stored checksum pinned, read_lead + read_header), plus insertions/deletions with the length field adjusted and the identifier toggle; Trace_Header accepts the recorded verdicts only if every accepted mutation leaves the header sealed according to the independent reference codec.",
+   note="Trusted: TLC, Header.tla, hashlib, the reference parser. Assumes no second preimage. Exhaustive over positions and values of the sample files, not over all files."),
 }
 
 def entry(pid, c):
